@@ -9,6 +9,9 @@ correspondence: the REAL pcp_server() (ASan/UBSan harness, forked + chroot'ed pe
                 the scratch-built `pdcp -z DEST` binary, fed generated hostile streams, about a tenth of them
                 under a file size limit (write faults); reply classes and the complete file system below the
                 jail root are compared with `pdshmodel pcp sink`
+                symbolic links that already exist inside the destination: the model runs on the link-free view
+                (Pcp/Links.lean, `pdshmodel pcp sinkl`) when the probed receiver follows links, and treats a link as
+                something in the way when it does not (lstat/O_NOFOLLOW)
 oracle:         snapshot of the jail (destination AND everything around it) before/after: every created or
                 modified path must lie beneath the canonical destination (`pdshmodel pcp spec12`); a stream that
                 violates the record grammar must be answered with at least one error record; after a write
@@ -37,7 +40,9 @@ MANIFEST = dict(
          "initial file systems without symbolic links); the model is executed against the real receiver on "
          "generated record sequences with hostile names/sizes/modes/times, truncations and garbage, comparing reply "
          "classes and the whole file system; independently every path the real receiver created or modified is "
-         "tested for lying beneath the destination, which yields the escaping stream as replay.",
+         "tested for lying beneath the destination, which yields the escaping stream as replay.  Every run covers a "
+         "fixed systematic part (every record type x field x malformation, one stream cut at every byte, every hostile / "
+         "near-hostile name, deep nesting, sizes around the transfer block, symbolic links already inside the destination).",
     design_ref="DESIGN.md section 5 C11/C12, section 6 D13",
     note="Lean 4.33 kernel; axioms propext/Classical.choice/Quot.sound at most (audited per theorem every run); "
          "hand-written model tied to pcp_server.c by differential execution of the real source built from /repo's "
